@@ -404,6 +404,8 @@ class ConditionLike:
                                 f"types are: {list(DTYPE_LOOKUP.keys())!r}."
                             )
 
+                    if pre_proc_str not in PRE_PROC_LOOKUP.values():
+                        raise AttributeError(pre_proc_str)
                     cls = getattr(cls, pre_proc_str)
 
                 except AttributeError:
